@@ -21,7 +21,8 @@
 (***************************************************************************)
 EXTENDS ServerCore, Json
 
-CONSTANTS Focus, MaxOps, MaxProbes
+CONSTANTS Focus, MaxOps, MaxProbes,
+          SetLevels      \* levels the application may switch a node to at run time ({} = never)
 
 VARIABLES hist,    \* the script so far: sequence of abstract requests
           nsub, nitem, probes
@@ -87,8 +88,12 @@ ItemRes(c, k) == IF ~Valid(c) THEN "sessErr"
                  ELSE IF items[k].owner # c THEN "notOwner" ELSE "ok"
 GSetMode(c)    == \E k \in ItemRefs : SetMode(c, k, ItemRes(c, k)) /\ Rec(Op("SetMode", c, "", 0, k, 0))
 GDeleteItem(c) == \E k \in ItemRefs : DeleteItem(c, k, ItemRes(c, k)) /\ Rec(Op("DeleteItem", c, "", 0, k, 0))
+\* v = the DeleteSubscriptions flag of the request (1 = true)
 GClose(c) == /\ Close(c, IF c \in Sessions /\ sess[c] \in {"created", "activated"} THEN "ok" ELSE "sessErr", {})
-             /\ Rec(Op("Close", c, "", 0, 0, 0))
+             /\ \E v \in {0, 1} : Rec(Op("Close", c, "", v, 0, 0))
+\* the application changes a level at run time: op.c = which attribute, op.n = the new level
+GSetLevel == \E n \in NodeSet, w \in {"al", "ual"}, lv \in SetLevels :
+                SetLevel(n, w, lv) /\ Rec(Op("SetLevel", w, lv, 0, 0, 0))
 GCreateSession(s) == CreateSession(s) /\ Rec(Op("CreateSession", s, "", 0, 0, 0))
 GActivate(c) == /\ Activate(c, IF c \in Sessions /\ sess[c] \in {"created", "activated"} THEN "ok" ELSE "sessErr")
                 /\ Rec(Op("Activate", c, "", 0, 0, 0))
@@ -102,10 +107,10 @@ Probe(c) == GRead(c) \/ GWrite(c) \/ GBrowse(c) \/ GUnsup(c) \/ GCreateSub(c) \/
 GNext ==
    /\ Len(hist) < MaxOps
    /\ CASE Focus = "access" ->
-             /\ (GRead("s1") \/ GWrite("s1")) /\ probes' = probes
+             /\ (GRead("s1") \/ GWrite("s1") \/ GSetLevel) /\ probes' = probes
         [] Focus = "session" ->
              \/ /\ probes < MaxProbes
-                /\ \E c \in {"s2"} \cup (Ghosts \ {"old"}) : Probe(c)
+                /\ \E c \in {"s2"} \cup Ghosts : Probe(c)
                 /\ probes' = probes + 1
              \/ /\ (GCreateSession("s2") \/ GActivate("s2") \/ (Valid("s2") /\ GClose("s2")))
                 /\ probes' = probes
